@@ -50,7 +50,7 @@ def frac_rows(rows: List[dict]) -> List[dict]:
     return out
 
 
-def lex_optimum(side: str, levels: List[dict], Te: Sequence[Fr], Ne: Sequence[Fr], pinch: Fr, total: Fr) -> Optional[List[float]]:
+def lex_optimum(side: str, levels: List[dict], Te: Sequence[Fr], Ne: Sequence[Fr], pinch: Fr, total: Fr, first_only: bool = False) -> Optional[List[float]]:
     """Lexicographic LP: lowest grade first (coldest hot utility / hottest cold utility).
 
     levels: dicts with tsf/ttf (shifted supply/target).  Te/Ne: exact pocket-free envelope.
@@ -94,6 +94,8 @@ def lex_optimum(side: str, levels: List[dict], Te: Sequence[Fr], Ne: Sequence[Fr
         if res.status != 0:
             return None
         best = res.x[k]
+        if first_only:
+            return [float(best) if j == k else float("nan") for j in range(n)]  # only the lowest-grade level is decided
         lb[k] = max(0.0, best - 1e-9 * scale)
         ub[k] = best + 1e-9 * scale
     res = linprog(np.zeros(n), A_ub=A, b_ub=b + 1e-9 * scale, A_eq=A_eq, b_eq=b_eq, bounds=list(zip(lb, ub)), method="highs")
